@@ -25,6 +25,8 @@ pub struct Ctx {
     pub ro_lists: Vec<String>,
     /// two-argument functions usable as infix operators in chains
     pub ops: Vec<String>,
+    /// outer variables holding a type (used in annotations of local declarations and patterns)
+    pub types: Vec<String>,
     /// (name, min args, max args; usize::MAX = variadic)
     pub funcs: Vec<(String, usize, usize)>,
     pub loop_depth: usize,
@@ -209,7 +211,13 @@ impl FlowGen {
                     let mut c2 = ctx.clone();
                     c2.ints.push(name.clone());
                     let body = self.int_expr(&c2, d - 1);
-                    arms.push((lv(&name), body));
+                    if !ctx.types.is_empty() && self.rng.chance(1, 2) {
+                        self.feat("annotated-pattern");
+                        let t = self.rng.pick(&ctx.types).clone();
+                        arms.push((Lv::Annot(Box::new(lv(&name)), Some(Box::new(var(&t)))), body));
+                    } else {
+                        arms.push((lv(&name), body));
+                    }
                     continue;
                 }
                 _ => Lv::Underscore,
@@ -615,11 +623,17 @@ impl FlowGen {
 
     /// shadow an outer variable in a fresh inner scope and mutate the inner one
     fn shadow(&mut self, inner: &mut Ctx, body: &mut Vec<Ex>) {
-        if inner.ints.is_empty() {
+        let cands: Vec<String> = inner.ints.iter().chain(inner.consts.iter()).cloned().collect();
+        if cands.is_empty() {
             return;
         }
         self.feat("shadowing");
-        let v = self.rng.pick(&inner.ints).clone();
+        let v = self.rng.pick(&cands).clone();
+        // inside this scope the name is now a local, assignable variable
+        inner.consts.retain(|x| x != &v);
+        if !inner.ints.contains(&v) {
+            inner.ints.push(v.clone());
+        }
         body.push(declare(&v, int(self.rng.range(50, 59))));
         body.push(Ex::OpAssign(false, Box::new(lv(&v)), "+".into(), Box::new(int(1))));
     }
@@ -630,7 +644,18 @@ impl FlowGen {
                 let name = self.fresh("x");
                 let e = self.int_expr(ctx, 2);
                 ctx.ints.push(name.clone());
-                declare(&name, e)
+                if !ctx.types.is_empty() && self.rng.chance(1, 3) {
+                    // annotated with a type held in an outer variable
+                    self.feat("annotated-local");
+                    let t = self.rng.pick(&ctx.types).clone();
+                    Ex::Assign(
+                        false,
+                        Box::new(Lv::Annot(Box::new(lv(&name)), Some(Box::new(var(&t))))),
+                        Box::new(e),
+                    )
+                } else {
+                    declare(&name, e)
+                }
             }
             1 => {
                 if ctx.ints.is_empty() {
@@ -709,6 +734,7 @@ pub fn generate(seed: u64, fault_free: bool) -> FlowOut {
         lists: Vec::new(),
         ro_lists: Vec::new(),
         ops: Vec::new(),
+        types: Vec::new(),
         funcs: Vec::new(),
         loop_depth: 0,
         in_lambda: false,
